@@ -416,9 +416,12 @@ class PatternBase:
                         fn_gen.add_line('pass')
         # Raise a helpful error if we are unable to parse
         # the date string with the provided patterns.
+        # Note: pass the patterns' repr as a variable; pasted into the
+        # f-string, a quote or a brace in a pattern broke the generated code.
+        _locals['__patterns'] = repr(patterns)
         fn_gen.add_line(
             'raise ValueError(f"Unable to parse the string \'{v1}\' '
-            f'with the provided patterns: {patterns!r}")')
+            'with the provided patterns: {__patterns}")')
 
     def __repr__(self):
         # Short path: Temporary state / placeholder
